@@ -49,7 +49,11 @@ PROPS = {
             "bytes skipped by seeking past EOF are unspecified in the model (real files zero-fill) and no contract refers to them",
             "TRUSTED: bytearray(b)[0] is the byte read; bytearray([x]) is a one-byte sequence holding x; list/bytearray.append appends",
             "objects that exist on entry are distinct from objects allocated during the call (allocation model: fresh references)",
-            "NOT proved: read_bitarray/read_bytes/try_read_bitarray, write_bitarray/write_bytes (generator / bitarray based, outside the verified subset) - see bounded_checks",
+            "write_bitarray and write_bytes ARE proved (loops over write_bit / write_nbits with quantified invariants: the array's bits resp. the bytes, then zero "
+            "padding; OutOfRangeError iff the value is longer than the field - in particular for every negative length); TRUSTED there: a bitarray iterates as its "
+            "0/1 bits, bytearray(value) as its bytes",
+            "NOT proved: read_bitarray / read_bytes / try_read_bitarray (a generator expression with side effects inside the bitarray constructor: outside the "
+            "verified subset) - see bounded_checks",
             "NOT proved: termination of read_uint on an endless run of 0 bits (it ends by EOF error on a finite file)",
             "the writer's round trip is stated for values written wholly inside the current bounded block (or outside any block); a write that crosses the end of a bounded block "
             "is specified only by write_bit's clause (1s accepted and dropped, 0 raises ValueError) and the common frame",
@@ -62,14 +66,14 @@ PROPS = {
             category="proof",
             technique="contract-based deductive verification: pre/postconditions, loop invariants and frames on the real bodies of decoder/io.py, bitstream/io.py "
                       "(BitstreamReader, BitstreamWriter) and exp_golomb.py over an abstract bit-tape view; recursive lemmas for exp-Golomb decoding; z3",
-            text="Every primitive of the validator's reader (16 functions), BitstreamReader (13 methods), BitstreamWriter (13 methods) and both exp-Golomb length functions "
+            text="Every primitive of the validator's reader (16 functions), BitstreamReader (13 methods), BitstreamWriter (15 methods, incl. write_bitarray and write_bytes) and both exp-Golomb length functions "
                  "is verified against a contract on an abstract bit tape, for all values, lengths, positions and bounded-block states: readers return the spec functions "
                  "bitsval / ue_val of (tape, position) - identically for both readers, bounded and unbounded; the writer's view after write_nbits/write_uint/write_sint "
                  "satisfies the same functions of the value written, earlier bits unchanged, position advanced by exactly exp_golomb_length; out-of-range values raise "
                  "OutOfRangeError exactly when (iff) they are out of range; past the end of a bounded block reads give 1, writing 1 is accepted, writing 0 raises; "
                  "seek keeps the block limit; lemmas RT_* show any tape agreeing with the writer's view on the written bits decodes to the written value at the same positions.",
-            note="Trusted: file/bytearray library models, pyvc, z3, ground bit/pow2 lemmas (grid-checked). Not proved (bounded stand-in only): bitarray/bytes primitives; "
-                 "writes crossing a block end beyond the per-bit rule.",
+            note="Trusted: file/bytearray library models, pyvc, z3, ground bit/pow2 lemmas (grid-checked). Not proved (bounded stand-in only): the READING bitarray/bytes "
+                 "primitives (write_bitarray / write_bytes are proved); writes crossing a block end beyond the per-bit rule.",
         ),
     ),
     "C02": dict(
